@@ -52,10 +52,6 @@ def make_builder(rng, name, dtype):
 
 
 def pick_padding(rng, k, s):
-    """SAME padding with a vertical stride >= kernel height is the trigger of the cascade rolling-buffer finding
-    (C03 / C01 key cascade-rolling-buffer-stale-row): reproduced by the corpus, rare in the random part"""
-    if 1 < k[0] <= s[0] and rng.random() < 0.95:
-        return "VALID"
     return rng.choice(["SAME", "VALID"])
 
 
@@ -92,8 +88,8 @@ def gen_net(rng, idx, profile):
         if len(xt.shape) != 4:
             break
         kind = rng.choice(menu.get(profile, allk))
-        # Compositions that hit one of the recorded findings (known_findings.txt, reproduced deterministically by the
-        # corpus networks) are kept rare in the random part so that they do not mask anything else.
+        # The one composition that hits the open finding (known_findings.txt, reproduced deterministically by a corpus
+        # network) is kept rare in the random part so that it does not mask anything else.
         if kind in avoid and rng.random() < 0.995:
             kind = rng.choice(["conv1x1", "add_self", "mul_const"])
         n, hh, ww, cc = xt.shape
@@ -185,18 +181,9 @@ def gen_net(rng, idx, profile):
         live.append(cur)
         last = b.net.ops[-1]
         avoid = set()
-        if last.kind in ("STRIDED_SLICE", "SPLIT"):
-            # a slice is folded into its consumer as a read offset: windows with padding and fused activations go wrong
-            avoid = set(allk) - {"conv1x1", "add_self", "add_skip", "mul_skip", "mul_const", "sub_const", "add_const", "quantize", "lrelu"}
-            # (a second slice, a strided convolution, a padded window or an activation right after a slice: see the findings)
-        if last.kind in ("QUANTIZE", "RESHAPE", "PAD", "EXPAND_DIMS", "SQUEEZE") + ACTIVATION_LIKE or (last.opts and last.opts[1].get("FusedActivationFunction", 0)):
-            avoid.add("relu")
-        if last.kind == "PAD":
-            # a PAD is folded into its consumer: average pools, concatenations and strided windows go wrong (see the findings)
-            avoid |= {"avgpool_valid", "avgpool_same", "concat", "split_concat", "conv", "dwconv", "maxpool", "minmax", "tconv",
-                      "conv_cpu", "slice"}
-        if last.kind in ACTIVATION_LIKE or kind == "pad_conv":
-            avoid |= {"fc_end", "reshape_back"}
+        if last.kind == "LEAKY_RELU" and dtype == "int16":
+            # int16 LEAKY_RELU with differing scales is lowered to MUL/MUL/MAX; a RESHAPE behind it goes wrong (open finding)
+            avoid = {"fc_end", "reshape_back", "squeeze_expand"}
     if profile == "approx" and len(b.t(cur).shape) == 4:
         # the approximated operator comes last so that its error is not amplified
         which = rng.choice(["avgpool_same", "avgpool_same", "logistic", "tanh", "resize", "resize"])
@@ -229,12 +216,17 @@ def gen_net(rng, idx, profile):
 
 
 def corpus_net(rng, name):
-    """hand-built reproducers of the known findings (run first on every run)"""
+    """hand-built reproducers of the defects this check found (run first on every run): regression tests for the repaired
+    ones, a deterministic witness for the open one (known_lrelu16_reshape)"""
     import netgen
 
-    b = make_builder(rng, name, "int16" if name == "known_fc_int16" else "int8")
+    b = make_builder(rng, name, "int16" if name in ("known_fc_int16", "known_lrelu16_relu6", "known_lrelu16_reshape") else "int8")
     if name == "known_fc_int16":
         x = b.input([1, 2, 1, 16], scale=0.0011566292960196733, zp=0)
+    elif name == "known_lrelu16_relu6":
+        x = b.input([1, 4, 6, 4], scale=0.00029, zp=0)
+    elif name == "known_lrelu16_reshape":
+        x = b.input([1, 9, 4, 8], scale=0.025, zp=0)
     else:
       x = b.input({"known_pad_conv_reshape": [1, 4, 9, 4], "known_lut_reshape": [1, 3, 9, 8],
                  "known_cascade_stale_row": [1, 10, 8, 8], "known_slice_strided_conv": [1, 6, 6, 4],
@@ -288,6 +280,16 @@ def corpus_net(rng, name):
     elif name == "known_pad_strided_dw":
         p = b.pad(x, [[0, 0], [1, 0], [1, 1], [0, 0]])
         z = b.dwconv(p, (2, 2), (3, 3), (1, 1), "VALID", act=0)
+    elif name == "known_lrelu16_relu6":
+        y = b.unary("LEAKY_RELU", x)
+        _same_quant(b, y, x)
+        z = b.unary("RELU6", y)
+    elif name == "known_lrelu16_reshape":
+        q = b.quantize(x)
+        b.t(q).scales = [0.0019]
+        y = b.unary("LEAKY_RELU", q)
+        b.t(y).scales = [0.24]
+        z = b.fc(b.reshape(y, [1, 9 * 4 * 8]), 4)
     elif name == "known_reshape_relu":
         z = b.unary("RELU6", b.reshape(x, [1, 4, 9, 8]))
     else:  # known_quantize_relu
@@ -351,14 +353,6 @@ def _worker(job):
                 nops += len(art.npu_ops)
             out["features"] = sorted(feats)
             out["npu_stream_ops"] = nops
-            if "cascade" in feats:
-                # kept for attribution only: a C01 failure inside a cascade is cross-checked with the C03 tagged-memory checker
-                try:
-                    ext, _m = pipeline.extents_from_output(res.out_model)
-                    out["stream_lines"] = [pipeline.stream_line(a, ext) for a in res.streams]
-                    out["op_meta"] = [pipeline.op_meta(a) for a in res.streams]
-                except Exception:
-                    pass
             try:
                 sets = c01_lib.make_inputs(rng, data, k_inputs)
                 line, sg, og = c01_lib.build_request(data, res, sets, capture)
@@ -392,112 +386,22 @@ def run_lean(lines, jobs=16):
     return answers
 
 
-RELUS = ("RELU", "RELU6", "RELU_N1_TO_1")
-ACTIVATION_LIKE = RELUS + ("LEAKY_RELU", "LOGISTIC", "TANH", "HARD_SWISH")
 MEMORY_ONLY = ("RESHAPE", "SQUEEZE", "EXPAND_DIMS")
 
 
 def classify_failure(o, ans):
-    """stable key of a known finding (see known_findings.txt), or None. Only the structure of the source
-    network is consulted; the verdict itself is Lean's. Memory-only operators (RESHAPE, SQUEEZE, EXPAND_DIMS) are
-    bypassed by the compiler, so a producer is looked up through them."""
+    """stable key of the open known finding (see known_findings.txt), or None. Only the structure of the source network
+    is consulted; the verdict itself is Lean's."""
+    if not (ans.endswith("verdict=fail") or "read_outside_region" in ans) or o.get("dtype") != "int16":
+        return None
     g = o.get("src_graph") or []
-    raw_producer, consumers = {}, {}
+    consumers = {}
     for kind, ins, outs, faf, pad, stride in g:
-        for t in outs:
-            raw_producer[t] = (kind, faf, ins)
         for t in ins:
             consumers.setdefault(t, []).append(kind)
-
-    def through(t):
-        """tensor reached by walking back through memory-only operators"""
-        while t in raw_producer and raw_producer[t][0] in MEMORY_ONLY:
-            t = raw_producer[t][2][0]
-        return t
-
-    def producer_of(t):
-        return raw_producer.get(through(t), (None, 0, []))
-
-    slices = ("STRIDED_SLICE", "SPLIT")
-    if "do_not_fit_the_IFM_depth" in ans:
-        # slice folded into a convolution whose width stride is folded into the channels (fixup_strided_conv)
-        for kind, ins, outs, faf, pad, stride in g:
-            if kind == "CONV_2D" and stride > 1 and ins and producer_of(ins[0])[0] in slices:
-                return "slice-folded-into-width-folded-strided-conv-keeps-unfolded-depth"
-        return None
-    if "do_not_fit_kernel" in ans:
-        # PAD folded into the padding of a VALID convolution / pool whose output is consumed through a RESHAPE
-        for kind, ins, outs, faf, pad, stride in g:
-            if kind in ("CONV_2D", "DEPTHWISE_CONV_2D", "AVERAGE_POOL_2D") and pad == 1 and ins and producer_of(ins[0])[0] == "PAD" \
-                    and any(c in MEMORY_ONLY for c in consumers.get(outs[0], [])):
-                return "pad-folded-into-conv-then-reshape-resets-ofm-shape"
-        return None
-    if "read_outside_region" in ans:
-        # PAD feeding a CONCATENATION directly: the concat copy is turned into a depthwise convolution with bad depth slices
-        for kind, ins, outs, faf, pad, stride in g:
-            if kind == "CONCATENATION" and any(producer_of(t)[0] == "PAD" for t in ins):
-                return "pad-folded-into-concat-copy-emits-zero-depth-stripe"
-    if "read_outside_region" in ans or ans.endswith("verdict=fail"):
-        # table-lookup activation whose output is consumed through a RESHAPE
-        for kind, ins, outs, faf, pad, stride in g:
-            if kind in ("LEAKY_RELU", "LOGISTIC", "TANH", "HARD_SWISH") and any(c in MEMORY_ONLY for c in consumers.get(outs[0], [])):
-                return "lut-activation-then-reshape-resets-shapes"
-    if not ans.endswith("verdict=fail"):
-        return None
-    if o.get("dtype") == "int16" and any(k[0] == "FULLY_CONNECTED" for k in g) and \
-            all(int(d) <= 1 for d in re.findall(r"maxdiff=(\d+)", ans)):
-        return "int16-fully-connected-rounds-twice"
     for kind, ins, outs, faf, pad, stride in g:
-        if kind in slices:
-            src = ins[0] if kind == "STRIDED_SLICE" else ins[1]
-            if producer_of(src)[0] in slices:
-                return "slice-of-slice-read-offsets-not-accumulated"
-    windows = ("CONV_2D", "DEPTHWISE_CONV_2D", "MAX_POOL_2D", "AVERAGE_POOL_2D")
-    for kind, ins, outs, faf, pad, stride in g:
-        if kind in windows and stride > 1 and ins and producer_of(ins[0])[0] in slices:
-            return "slice-read-offset-multiplied-by-consumer-stride"
-    for kind, ins, outs, faf, pad, stride in g:
-        if kind in windows and stride > 1 and pad == 1 and ins and producer_of(ins[0])[0] == "PAD":
-            return "pad-folded-into-strided-window-drops-trailing-padding"
-    for kind, ins, outs, faf, pad, stride in g:
-        if kind in windows and ins:
-            pk, _pf, pins = producer_of(ins[0])
-            # padded window directly on the slice (SAME), or through a PAD that is folded into the window's padding
-            if (pad == 0 and pk in slices) or (pk == "PAD" and pins and producer_of(pins[0])[0] in slices):
-                return "slice-read-offset-window-rows-not-clamped-to-slice"
-    for kind, ins, outs, faf, pad, stride in g:
-        if kind == "AVERAGE_POOL_2D" and pad == 1 and faf != 0 and ins and producer_of(ins[0])[0] == "PAD":
-            return "pad-folded-into-avgpool-fused-activation-clamps-with-zero-point-0"
-    for kind, ins, outs, faf, pad, stride in g:
-        if kind in RELUS and ins:
-            direct = raw_producer.get(ins[0], (None, 0, []))
-            pk, pf, _pins = producer_of(ins[0])
-            if pk in slices:
-                return "activation-after-slice-fused-into-producer-drops-read-offset"
-            if pf != 0 or pk in ACTIVATION_LIKE:
-                return "packed-relu-overrides-fused-activation"
-            if pk in ("QUANTIZE", "PAD"):
-                return "relu-fused-into-avgpool-that-keeps-its-zero-point-adds-it-twice"
-            # activation reached from a graph input through memory-only operators only
-            if direct[0] in MEMORY_ONLY and through(ins[0]) in (o.get("src_inputs") or []):
-                return "reshape-of-graph-input-then-activation-becomes-plain-copy"
-    return None
-
-
-def classify_by_stream(o):
-    """A value mismatch inside a cascade: ask the Lean tagged-memory checker (C03) whether an operation of this
-    very stream reads a stale rolling-buffer row, and map its known finding to the C01 key."""
-    import stream_checks
-
-    lines = o.get("stream_lines") or []
-    if not lines:
-        return None
-    for ans, metas in zip(common.run_model(lines), o.get("op_meta") or []):
-        a = stream_checks.parse_answer(ans)
-        if a.get("tagged"):
-            k = stream_checks.classify_tagged(a["tagged_msgs"][0], metas)
-            if k is not None:
-                return k
+        if kind == "LEAKY_RELU" and any(c in MEMORY_ONLY for c in consumers.get(outs[0], [])):
+            return "int16-lrelu-mul-max-then-reshape-recomputes-shapes"
     return None
 
 
@@ -516,11 +420,11 @@ def main():
     import pipeline
 
     pipeline.load_vela()
-    n = 50000 if ck.thorough else 6000
+    n = 40000 if ck.thorough else 6000
     k_inputs = 5 if ck.thorough else 4
     jobs = [(0, 0, "known_" + nm, k_inputs) for nm in ("slice_relu", "fused_act_relu", "pad_conv_reshape", "quantize_relu", "reshape_relu",
                                                               "slice_window", "lut_reshape", "cascade_stale_row", "pad_avgpool_act", "slice_of_slice", "slice_strided_conv", "fc_int16",
-                                                              "slice_strided_pool", "pad_concat", "pad_strided_dw")]
+                                                              "slice_strided_pool", "pad_concat", "pad_strided_dw", "lrelu16_relu6", "lrelu16_reshape")]
     jobs += [(ck.seed, i, PROFILES[i % len(PROFILES)], k_inputs) for i in range(n)]
     ctx = multiprocessing.get_context("fork")
     with ProcessPoolExecutor(min(16, os.cpu_count() or 4), mp_context=ctx) as ex:
@@ -551,7 +455,6 @@ def main():
             continue
         if not ans.startswith("ok "):
             key = classify_failure(o, ans)
-            ck.count(("attributed_to_known_finding:" + key) if key else "unattributed_failure")
             ck.violation(f"execution of the {'output' if ':out:' in ans else 'source'} model failed in Lean: {ans[:300]} "
                          f"(network {o['idx']} {o['profile']} {o['src_ops']} {o['opts']})", rp, found_input=key is not None, key=key)
             continue
@@ -575,10 +478,8 @@ def main():
         if nblocks > 0 and any(c != "2" for c in classes):
             nontrivial.add((o["profile"], o["idx"], tuple(o["opts"])))
         if ans.endswith("verdict=fail"):
-            key = classify_failure(o, ans) or classify_by_stream(o)
-            ck.count(("attributed_to_known_finding:" + key) if key else "unattributed_failure")
             ck.violation(f"compiled model differs from the source model: {ans[:400]} "
-                         f"(network {o['idx']} {o['profile']} {o['src_ops']} {o['opts']})", rp, key=key)
+                         f"(network {o['idx']} {o['profile']} {o['src_ops']} {o['opts']})", rp, key=classify_failure(o, ans))
     for o, ans in list(zip(owners, answers))[:4]:
         ck.sample({"network": o["desc"], "opts": o["opts"], "features": o.get("features"), "verdict": ans[:300]})
     ck.finish({
